@@ -256,31 +256,42 @@ structure DecLit where
   exp10 : Int
   rest : List Nat
 
+/-- `. DecimalDigits_opt` after the integer digits: (fraction digits, rest).  A lone "." with no digit on
+    either side is not consumed. -/
+def fracStep (ipEmpty : Bool) (r1 : List Nat) : List Nat × List Nat :=
+  match r1 with
+  | c :: t =>
+    if c = 46 then
+      let fp := t.takeWhile isDigit
+      if ipEmpty ∧ fp.isEmpty then ([], r1) else (fp, t.dropWhile isDigit)
+    else ([], r1)
+  | [] => ([], r1)
+
+/-- SignedInteger of an ExponentPart: (sign, rest) -/
+def expSign (t : List Nat) : Int × List Nat :=
+  match t with
+  | c :: u => if c = 43 then (1, u) else if c = 45 then (-1, u) else (1, t)
+  | [] => (1, t)
+
+/-- ExponentPart_opt: only taken when complete; (exponent, rest) -/
+def expStep (r2 : List Nat) : Int × List Nat :=
+  match r2 with
+  | c :: t =>
+    if c = 101 ∨ c = 69 then
+      let ed := (expSign t).2.takeWhile isDigit
+      if ed.isEmpty then (0, r2) else ((expSign t).1 * (digitsVal ed : Int), (expSign t).2.dropWhile isDigit)
+    else (0, r2)
+  | [] => (0, r2)
+
 /-- longest prefix of `rs` that is a StrUnsignedDecimalLiteral (§9.3.1), if any -/
 def unsignedDecPrefix (rs : List Nat) : Option DecLit :=
   if sInfinity.isPrefixOf rs then some ⟨true, 0, 0, rs.drop 8⟩ else
   let ip := rs.takeWhile isDigit
   let r1 := rs.dropWhile isDigit
-  let (fp, r2) : List Nat × List Nat := match r1 with
-    | 46 :: t =>
-      let fp := t.takeWhile isDigit
-      -- "." must be followed by digits when there is no integer part
-      if ip.isEmpty ∧ fp.isEmpty then ([], r1) else (fp, t.dropWhile isDigit)
-    | _ => ([], r1)
+  let fp := (fracStep ip.isEmpty r1).1
+  let r2 := (fracStep ip.isEmpty r1).2
   if ip.isEmpty ∧ fp.isEmpty then none else
-  -- ExponentPart_opt : only taken when complete
-  let (ex, r3) : Int × List Nat := match r2 with
-    | c :: t =>
-      if c = 101 ∨ c = 69 then
-        let (sg, t2) : Int × List Nat := match t with
-          | 43 :: u => (1, u)
-          | 45 :: u => (-1, u)
-          | _ => (1, t)
-        let ed := t2.takeWhile isDigit
-        if ed.isEmpty then (0, r2) else (sg * (digitsVal ed : Int), t2.dropWhile isDigit)
-      else (0, r2)
-    | [] => (0, r2)
-  some ⟨false, digitsVal (ip ++ fp), ex - (fp.length : Int), r3⟩
+  some ⟨false, digitsVal (ip ++ fp), (expStep r2).1 - (fp.length : Int), (expStep r2).2⟩
 
 /-- the Number value for a mathematical value mant·10^exp10 (correctly rounded; sign applied) -/
 def mvRound (neg : Bool) (mant : Nat) (exp10 : Int) : FV :=
